@@ -1,11 +1,18 @@
-import Wayfind.Proofs.Greedy
+import Wayfind.Proofs.SingleRoute
 
 /-! # C12 — captures are greedy, leftmost parameter first
-`greedy` (Spec/Greedy.lean) is the leftmost-longest assignment written directly. With a single route the documented
-walk returns exactly it; combined with C03 (search = walk) this is the property for a router holding one group-free
-template, whether the parameter fills a segment or shares it with literal text.
-Status: **partial** — list level + tree level separately; the one-template router statement is the composition. -/
+`greedy` (Spec/Greedy.lean) is the leftmost-longest assignment written directly: each parameter, from the left, takes
+the longest acceptable value for which the rest of the path can still be matched. The theorem: a router that holds
+exactly one group-free template answers every path with `greedy` — whether a parameter fills a segment or shares it
+with literal text, for every constraint environment. -/
 
+theorem C12_single_template_is_greedy (env : Env) (builtins : List (Bytes × Bytes)) (t : Bytes) (d : Nat) (raw : Bytes)
+    (parts : List Part) (r : Router) (hp : parseTemplates t = .ok [(raw, parts)])
+    (hi : ({ registry := builtins } : Router).insert t d = .ok r) (path : Bytes) :
+    r.search env path = (greedy env parts path).map (fun vs => ⟨t, none, d, vs⟩) :=
+  single_template_search env builtins t d raw parts r hp hi path
+
+/-- list level: with a single route the documented walk returns the leftmost-longest assignment -/
 theorem C12_single_route_walk_is_greedy (env : Env) (parts : List Part) (info : Info) (path : Bytes) (hs : statsNE parts) :
     refWalk env path.length [⟨parts, info⟩] path [] = (greedy env parts path).map (fun vs => (info, vs)) := by
   simpa using refWalk_single env path.length parts info path [] hs (Nat.le_refl _)
